@@ -5,6 +5,7 @@ import (
 	"crypto/tls"
 	"encoding/json"
 	"fmt"
+	"hash/crc32"
 	"os"
 	"path/filepath"
 	"reflect"
@@ -53,6 +54,19 @@ type stats struct {
 	quietMs                               int
 	noMeta, libraryObserver, idleObserver bool
 	longestIdle                           time.Duration
+	// how the collector reaches its targets: what the configured address lists contain, and which dead addresses were dialled
+	multiAddr, deadBeforeLive, liveFirst, addrTwice, addrChain, deadDialled, shortDialTimeout bool
+	deadPerTarget                                                                             int
+	deadKinds                                                                                 map[string]bool
+	deadUsers                                                                                 map[string]map[string]bool // dead endpoint -> targets that list it
+	// message sizes: the largest single SubscribeResponses the targets sent (measured where they are sent)
+	sizes sizeStats
+}
+
+// bigResponse: some target sent a single SubscribeResponse above 4 MiB or with >= 1000 updates.
+func (s *stats) bigResponse() bool {
+	z := s.sizes
+	return z.over4Burst || z.over4Stream || z.manyBurst || z.manyStream
 }
 
 // notePrefix records what kind of prefix.target / origin a scripted notification carries.
@@ -169,8 +183,49 @@ func (s *stats) labels() []string {
 	add(s.noMeta, "collector-without-periodic-metadata")
 	add(s.libraryObserver, "observer-dialled-by-the-client-library")
 	add(s.idleObserver, "observer-stream-idle>=33s-then-updated")
+	add(s.multiAddr, "target-with-several-addresses")
+	add(s.deadBeforeLive, "dead-address-listed-before-the-live-one")
+	add(s.liveFirst && s.multiAddr, "live-address-listed-first")
+	add(s.deadPerTarget >= 2, "target-with>=2-dead-addresses")
+	add(s.addrTwice, "address-listed-twice")
+	add(s.addrChain, "address-chain")
+	add(s.deadDialled, "collector-dialled-a-dead-address")
+	add(s.shortDialTimeout, "collector-with-short-dial-timeout")
+	for k := range s.deadKinds {
+		l = append(l, "dead-address-"+k)
+	}
+	for _, us := range s.deadUsers {
+		add(len(us) > 1, "dead-address-shared-by-targets")
+	}
+	z := s.sizes
+	add(z.over4Burst, "response>4MiB-in-the-sync-burst")
+	add(z.over4Stream, "response>4MiB-after-sync")
+	add(z.over8, "response>8MiB")
+	add(z.manyBurst, "response-with>=1000-updates-in-the-sync-burst")
+	add(z.manyStream, "response-with>=1000-updates-after-sync")
+	add(z.maxUpdates >= 5000, "response-with>=5000-updates")
+	add(z.over4Atomic, "atomic-container>4MiB")
+	add(z.over4WhileObserved, "response>4MiB-while-an-observer-streams")
+	add(z.resentOnAgain, "response>4MiB-on-a-later-stream")
+	add(z.maxValue >= mib/2, "value>=512KiB")
+	add(z.maxValue > 4*mib, "single-value>4MiB")
+	add(z.bigString, "large-string-value")
+	add(z.bigBytes, "large-bytes-value")
+	l = dedup(l)
 	sort.Strings(l)
 	return l
+}
+
+func dedup(l []string) []string {
+	seen := map[string]bool{}
+	out := l[:0]
+	for _, x := range l {
+		if !seen[x] {
+			seen[x] = true
+			out = append(out, x)
+		}
+	}
+	return out
 }
 
 // scalarOf is the Go value the client library documents for a TypedValue of this spec.
@@ -220,6 +275,8 @@ func reference(sc *Scenario, st *stats) map[string]interface{} {
 	st.kinds, st.breakVia, st.aimed, st.breakCode = map[string]bool{}, map[string]bool{}, map[string]bool{}, map[string]bool{}
 	servers, requests := map[int]int{}, map[int]int{}
 	st.names, st.ptVaries, st.noMeta = map[string]bool{}, map[string]map[string]bool{}, sc.NoMeta
+	st.deadKinds, st.deadUsers = map[string]bool{}, map[string]map[string]bool{}
+	st.shortDialTimeout = sc.DialTimeoutMs > 0 && sc.DialTimeoutMs < 5000
 	for _, tg := range sc.Targets {
 		st.names[tg.Name] = true
 	}
@@ -346,7 +403,27 @@ func subscribeView(q client.Query, want map[string]string, timeout time.Duration
 	return c.Leaves(), nil
 }
 
-func fmtScalar(v interface{}) string { return fmt.Sprintf("%#v", v) }
+// fmtScalar renders a value for a message; a long one is cut (its length and a checksum identify it).
+func fmtScalar(v interface{}) string {
+	switch x := v.(type) {
+	case string:
+		if len(x) > 200 {
+			return fmt.Sprintf("%q...(string of %d bytes, crc32 %08x)", x[:40], len(x), crc32.ChecksumIEEE([]byte(x)))
+		}
+	case []byte:
+		if len(x) > 200 {
+			return fmt.Sprintf("%#v...(%d bytes, crc32 %08x)", x[:16], len(x), crc32.ChecksumIEEE(x))
+		}
+	}
+	return cut(fmt.Sprintf("%#v", v))
+}
+
+func cut(s string) string {
+	if len(s) > 600 {
+		return fmt.Sprintf("%s...(%d bytes, crc32 %08x)", s[:200], len(s), crc32.ChecksumIEEE([]byte(s)))
+	}
+	return s
+}
 
 // compareLeaves checks the observer's view of the targets in scope against the reference.
 var debugDump bool
@@ -552,7 +629,7 @@ func checkCLI(e *env, dir, addr, target string, query []gn.Elem, ref map[string]
 			if dt == "group" {
 				p, perr := parseGroup(out)
 				if perr != nil {
-					return &violation{"cli-output", fmt.Sprintf("gnmi_cli (%s) grouped output cannot be read back: %v\n%s", name, perr, out)}
+					return &violation{"cli-output", fmt.Sprintf("gnmi_cli (%s) grouped output cannot be read back: %v\n%s", name, perr, tailOf(out, 3000))}
 				}
 				parsed = p
 			} else {
@@ -595,7 +672,7 @@ func renderMap(m map[string]string) string {
 	sort.Strings(ks)
 	var parts []string
 	for _, k := range ks {
-		parts = append(parts, fmt.Sprintf("%q=%s", strings.ReplaceAll(k, gn.Sep, "/"), m[k]))
+		parts = append(parts, fmt.Sprintf("%q=%s", strings.ReplaceAll(k, gn.Sep, "/"), cut(m[k])))
 	}
 	return "{" + strings.Join(parts, ", ") + "}"
 }
@@ -632,10 +709,16 @@ func runOnce(e *env, workDir string, sc *Scenario, st *stats) error {
 			Subscription: []*pb.Subscription{{Path: &pb.Path{Elem: []*pb.PathElem{{Name: "*"}}}}}}}}
 	}
 	want := map[string]string{}
+	dead := &deadEnds{e: e}
+	defer dead.stop()
 	for _, tg := range sc.Targets {
 		s := servers[tg.Server%len(servers)]
 		s.addScript(tg, id)
-		cfg.Target[tg.Name] = &tpb.Target{Addresses: []string{s.addr}, Request: fmt.Sprintf("req%d", tg.Request%sc.Requests)}
+		addrs, err := dead.addresses(tg, s.addr, st)
+		if err != nil {
+			return &inconclusive{msg: err.Error()}
+		}
+		cfg.Target[tg.Name] = &tpb.Target{Addresses: addrs, Request: fmt.Sprintf("req%d", tg.Request%sc.Requests)}
 		if tg.RecvTimeoutMs > 0 {
 			cfg.Target[tg.Name].Meta = map[string]string{"receive_timeout": fmt.Sprintf("%dms", tg.RecvTimeoutMs)}
 		}
@@ -647,7 +730,7 @@ func runOnce(e *env, workDir string, sc *Scenario, st *stats) error {
 	// the observers exist (not yet subscribed) before the collector can reach a target: scripts may wait for them
 	fr := newObservers(h, sc, id)
 	defer fr.stop()
-	col, err := startCollector(e, dir, cfgFile, sc.NoMeta)
+	col, err := startCollector(e, dir, cfgFile, sc.NoMeta, time.Duration(sc.DialTimeoutMs)*time.Millisecond)
 	if err != nil {
 		return &inconclusive{msg: err.Error()}
 	}
@@ -658,6 +741,15 @@ func runOnce(e *env, workDir string, sc *Scenario, st *stats) error {
 
 	err = judge(e, dir, id, sc, st, ref, h, fr, col, servers, want)
 	st.unscriptedEnd = h.unscriptedEnds() > 0
+	for _, d := range dead.ends {
+		st.deadDialled = st.deadDialled || d.dialled() > 0
+	}
+	st.sizes = h.sizes()
+	if inc, ok := err.(*inconclusive); ok && inc.hang {
+		// what the collector has to say about it (diagnostic)
+		lg, _ := os.ReadFile(col.log)
+		inc.msg += "; collector log ends: " + lastLines(string(lg), 6, 400)
+	}
 	// A target configured with a receive timeout depends on the scripted target's heartbeats arriving in time:
 	// a machine that stalls for longer makes the collector drop and re-read the target's state at an instant
 	// the script did not choose. A verdict against the code therefore needs positive evidence that this did
@@ -789,6 +881,20 @@ func judge(e *env, dir, id string, sc *Scenario, st *stats, ref map[string]inter
 		}
 	}
 	return nil
+}
+
+// lastLines: the last n lines of a log, each cut to width bytes (a log line may quote a whole message).
+func lastLines(s string, n, width int) string {
+	lines := strings.Split(strings.TrimRight(s, "\n"), "\n")
+	if len(lines) > n {
+		lines = lines[len(lines)-n:]
+	}
+	for i, l := range lines {
+		if len(l) > width {
+			lines[i] = l[:width] + "..."
+		}
+	}
+	return strings.Join(lines, " | ")
 }
 
 func tailOf(s string, n int) string {
